@@ -27,15 +27,25 @@ MANIFEST = {
              "every rule of aldi.differentiators.Atom (regenerated from the Python AST on every run: diff with the log-variable chain rule, "
              "neg add sub mul truediv rtruediv pow _power _exponential rsub log exp sqrt logistic maximum) is sound under the domain guard the "
              "mathematics needs, and by induction on the expression tree the operator-overloading walk returns (value, partial derivative) "
-             "for every tree, every log-status assignment, every seed direction and every admissible point (d/d log x for log-variables); "
-             "rules that are false for the code as written are proved false by a witness (Atom.sqrt, maximum with an Atom floor, the dead "
-             "`mininum`), functions with no Atom method (abs, minimum, normal_cdf, normal_pdf, number**Atom, maximum(number, Atom)) are proved to end in "
-             "TypeError in the model of the dispatch (rejected, never differentiated). Placement theorems for the scatter maps (rhs offsets, "
-             "ArrayMap.static, A-or-B exactly once, stacked-time rows). Partial: the model is tied to the code by the translator for the rules "
-             "and by differential correspondence for the walk, seeds and maps; finite differences of user functions, IEEE rounding, the sparse "
-             "matrix assembly and the terminal-condition correction are covered only by the finite-difference oracle on the real code."),
+             "for every tree, every log-status assignment, every seed direction and every admissible point (d/d log x for log-variables), "
+             "unconditionally for the rules as generated now (sqrtFormula_holds, maxFloorFormula_holds: a regression of a rule breaks the build); "
+             "functions with no Atom method (abs, minimum, normal_cdf, normal_pdf, number**Atom, maximum(number, Atom)) are proved to end in "
+             "TypeError in the model of the dispatch (rejected, never differentiated). Placement, proved on the executable map definitions for "
+             "every system of equations, token set and number of periods: rhs offsets; ArrayMap.static characterised entry by entry (row of the "
+             "equation, column of exactly that occurrence, nothing dropped) and no two entries address the same cell; A-or-B exactly once by the "
+             "lagged-vector rule; the transition vector holds exactly the shifts min+1..max of every variable, each exactly once, sorted leads "
+             "first; measurement occurrences at any lag have a G column; dynamic-identity rows say xi_t[(q,s)] = xi_(t-1)[(q,s+1)], one per "
+             "token with a lead in the vector, numbered without gaps; the stacked-time map characterised, lhs_row = eqn + n*column a bijection "
+             "between (equation, period) and rows, no two entries address the same cell; the terminal spots' running index is k*nq+p and "
+             "terminate_jacobian's row selection picks row p of block k of [T; T^2; ...]; create_terminal_jacobian_map pairs matching spots. "
+             "User context functions: the two-sided difference quotient composed with the chain rule is proved exact for polynomials of degree "
+             "<= 2 (one argument, and the two-argument total derivative for bilinear-quadratic functions) and off by exactly eps^2*d for the "
+             "cubic (with the code's step: max(|v|,1)^2*1e-12*|d|). Partial: the model is tied to the code by the translator for the rules and by "
+             "exact differential correspondence for the walk, seeds, maps and terminal bookkeeping; IEEE rounding, argument aliasing in the "
+             "finite differentiator, function caching, the sparse assembly and the numerical terminal-condition matrices are covered only by the "
+             "finite-difference oracle on the real code (systemize, steady, stacked-time evaluators, public simulate(method='stacked_time'))."),
     "design": "7/C02",
-    "note": "proof, partial: generated rules re-proved each run; dispatch walk, seeds and maps by correspondence; Jacobians of random models vs finite differences",
+    "note": "proof, partial: generated rules re-proved each run; walk/seeds/maps/terminal bookkeeping by exact correspondence; Jacobians of random models vs finite differences",
     "technique": "Lean 4 proof (Mathlib HasDerivAt) over translator-regenerated AD rules + differential correspondence + finite-difference oracle",
 }
 ASSUMPTIONS = [
@@ -1493,9 +1503,42 @@ def oracle_simulate_stacked(ctx: Ctx, case):
                        J, lambda i, j: (D[i, j], E[i, j]))
 
 
-def run_forward_models(ctx: Ctx, scale=1):
+def terminator_lines(m, T):
+    """E-class correspondence of the terminal-condition bookkeeping (`Terminator.__init__`, `create_terminal_jacobian_map`)"""
+    from irispie.incidences.main import Token
+    from irispie.incidences import main as inc
+    from irispie.quantities import QuantityKind as QK
+    from irispie.equations import EquationKind as EK
+    from irispie import equations as eqm
+    from irispie.fords.terminators import Terminator
+    inv = m._invariant
+    eqs = [e for e in inv.dynamic_equations if e.kind in EK.TRANSITION_EQUATION]
+    base = -inv._min_shift
+    cols = tuple(range(base, base + T))
+    term = Terminator(m, cols, eqs)
+    xq = [q.id for q in inv.quantities if q.kind in QK.TRANSITION_VARIABLE]
+    spots = [Token(q, c) for c in cols for q in xq]
+    term.create_terminal_jacobian_map(spots)
+    vec = m._get_dynamic_solution_vectors()
+    curr_qids, _ = vec.get_curr_transition_indexes()
+    last = cols[-1]
+    term_cols = list(range(last + 1, last + 1 + m.max_lead))
+    toks = [t for t in eqm.generate_all_tokens_from_equations(eqs) if t.qid in curr_qids]
+    mx = inc.get_some_shift_by_quantities(toks, max)
+    lines = [" ".join(["termspots", str(len(term_cols))] + [str(c) for c in term_cols] + [str(len(curr_qids))] + [str(q) for q in curr_qids]
+                      + [str(last), str(len(mx))] + [f"{q} {v}" for q, v in sorted(mx.items())])]
+    impl = [",".join(f"{i}:{t.qid}:{t.shift}" for i, t in zip(term._terminal_column_index, term.terminal_wrt_spots))]
+    terminit = [(t.qid, last + t.shift) for t in vec.transition_variables]
+    lines.append(" ".join(["termjac"] + tok_list(spots) + tok_list(terminit)))
+    tm = term.terminal_jacobian_map
+    impl.append(",".join(f"{a}:{b}" for a, b in zip(tm.lhs[1], tm.rhs[1])))
+    return lines, impl
+
+
+def run_forward_models(ctx: Ctx, scale=1, oracle_only=False):
     n = ctx.n(16, 200) * scale
     rng = ctx.rng.fork("forward-models")
+    t_lines, t_impl, t_cases = [], [], []
     for i in range(n):
         r = rng.fork(i)
         case = gen_forward_model(r, user=(i % 2 == 1))
@@ -1517,6 +1560,19 @@ def run_forward_models(ctx: Ctx, scale=1):
         oracle_stacked(ctx, mc, m)
         if case.get("context"):
             check_rebinding_model(ctx, dict(mc, sequence=["B", "A"]))
+        if not oracle_only:
+            try:
+                import io, contextlib
+                with contextlib.redirect_stdout(io.StringIO()):
+                    m.solve()
+                ls, im = terminator_lines(m, case["periods"])
+                t_lines += ls; t_impl += im; t_cases += [{"model": case["source"], "request": l[:200]} for l in ls]
+                ls, im = maps_lines(ctx, mc, m)
+                t_lines += ls; t_impl += im; t_cases += [{"model": case["source"], "request": l[:200]} for l in ls]
+            except Exception as ex:
+                ctx.count("forward-models:terminator-lines-raised:" + type(ex).__name__)
+    if not oracle_only and t_lines:
+        ctx.compare("terminator-and-maps", t_cases, t_impl, ctx.model("C02", t_lines))
 
 
 def run_models(ctx: Ctx, bad_rules: set, oracle_only=False, scale=1):
@@ -1632,7 +1688,7 @@ def search(ctx: Ctx, seeds):
     run_corpus(ctx, bad_rules)
     run_trees(ctx, bad_rules, oracle_only=True, scale=3)
     run_models(ctx, bad_rules, oracle_only=True, scale=2)
-    run_forward_models(ctx, scale=2)
+    run_forward_models(ctx, scale=2, oracle_only=True)
 
 
 def replay(ctx: Ctx, payload):
